@@ -423,17 +423,65 @@ func (x *Exec) checkInvs(s *State, invs []*SpecExpr, kind string, pos token.Pos,
 // does not exist any more) is dropped with a note instead of making the whole function undecidable:
 // whatever depended on it then fails as an ordinary obligation and is reported.
 func (x *Exec) tryInv(env *SpecEnv, inv *SpecExpr) (term string, ok bool) {
+	term, ok, unknown := x.tryInv1(env, inv)
+	if ok || unknown == "" {
+		return term, ok
+	}
+	// the invariant names a local that no longer exists.  If the loop is a `for v := ...; ...; ...` loop
+	// with a single induction variable, the name is taken to mean that variable (a renamed loop
+	// counter must not turn into an alarm); the invariant is then checked as usual, so a loop that
+	// really changed still fails.
+	if v, has := x.inductionVar(env); has {
+		if t2, ok2, _ := x.tryInv1(env.with(unknown, v), inv); ok2 {
+			x.eng.note("loop invariant: unknown name " + unknown + " read as the loop's induction variable")
+			return t2, true
+		}
+	}
+	x.eng.note("loop invariant dropped, it does not fit the current code: unknown identifier " + unknown)
+	return "", false
+}
+
+func (x *Exec) tryInv1(env *SpecEnv, inv *SpecExpr) (term string, ok bool, unknown string) {
 	defer func() {
 		if r := recover(); r != nil {
-			if u, isU := r.(unsupported); isU && strings.Contains(u.msg, "unknown identifier") {
-				x.eng.note("loop invariant dropped, it does not fit the current code: " + u.msg)
-				term, ok = "", false
-				return
+			if u, isU := r.(unsupported); isU {
+				if i := strings.Index(u.msg, "unknown identifier "); i >= 0 {
+					term, ok, unknown = "", false, strings.TrimSpace(u.msg[i+len("unknown identifier "):])
+					return
+				}
 			}
 			panic(r)
 		}
 	}()
-	return env.evalBool(inv), true
+	return env.evalBool(inv), true, ""
+}
+
+// inductionVar: the single variable defined in the init statement of the `for` loop whose body
+// starts at env.pos.
+func (x *Exec) inductionVar(env *SpecEnv) (Val, bool) {
+	for st := range x.fn.loops {
+		fs, isFor := st.(*ast.ForStmt)
+		if !isFor || fs.Body == nil || fs.Body.Lbrace+1 != env.pos {
+			continue
+		}
+		as, isAs := fs.Init.(*ast.AssignStmt)
+		if !isAs || as.Tok != token.DEFINE || len(as.Lhs) != 1 {
+			return Val{}, false
+		}
+		id, isId := as.Lhs[0].(*ast.Ident)
+		if !isId {
+			return Val{}, false
+		}
+		o, isVar := x.info().Defs[id].(*types.Var)
+		if !isVar {
+			return Val{}, false
+		}
+		if v, bound := env.s.env[o]; bound && !x.isBoxed(o) {
+			return v, true
+		}
+		return Val{}, false
+	}
+	return Val{}, false
 }
 
 func (x *Exec) assumeInvs(s *State, invs []*SpecExpr, pos token.Pos, extra map[string]Val) {
